@@ -1,6 +1,7 @@
 package main
 
 import (
+	"bufio"
 	"bytes"
 	"errors"
 	"fmt"
@@ -250,7 +251,7 @@ func srCase(kind string, key, ct []byte, fail bool, pieces []int, eofWith bool, 
 	oracle := ""
 	errs := 0
 	var firstErr error
-	buf := make([]byte, 70000)
+	buf := make([]byte, 4*C+10)
 	maxReads := len(ct)/1 + 10
 	if maxReads > 400 {
 		maxReads = 400
@@ -343,9 +344,9 @@ func randSizes(r *h.Rand) []int {
 	case 1:
 		return []int{C}
 	case 2:
-		return []int{70000}
+		return []int{h.Pick(r, []int{70000, 2 * C, 3*C + 1, 4 * C})}
 	case 3:
-		return []int{1 + r.Intn(100), 1 + r.Intn(70000)}
+		return []int{1 + r.Intn(100), 1 + r.Intn(4*C)}
 	case 4:
 		return []int{C - 1, 2}
 	default:
@@ -401,4 +402,95 @@ func bigCounterCase(r *h.Rand, chunks int) *h.Case {
 	}
 	return &h.Case{Kind: "big-counter", Line: fmt.Sprintf("sencz %s %d %d", h.Hex(key), C, n), Impl: h.Sum(ct), Oracle: oracle, NonTrivial: true,
 		Note: fmt.Sprintf("%d chunks + 5 bytes of zeros", chunks)}
+}
+
+// onlyReader / onlyWriter hide every optional interface of the wrapped value
+type onlyReader struct{ r io.Reader }
+
+func (o onlyReader) Read(p []byte) (int, error) { return o.r.Read(p) }
+
+type onlyWriter struct{ w io.Writer }
+
+func (o onlyWriter) Write(p []byte) (int, error) { return o.w.Write(p) }
+
+// srCopyCase drains the real reader the way io.Copy / io.ReadAll / a large bufio.Reader do (io.Copy uses
+// WriteTo when the reader has one): released bytes and the terminal condition must be the Spec's.
+func srCopyCase(kind string, key, ct []byte, fail bool, pieces []int, eofWith bool, mode int, truth, origCT []byte, note string) *h.Case {
+	src := &h.SchedReader{Data: append([]byte(nil), ct...), Pieces: pieces, Fail: fail, EOFWith: eofWith}
+	r, err := verifhook.NewStreamReader(key, src)
+	if err != nil {
+		return &h.Case{Kind: kind, Impl: "newreader-error", Oracle: "NewReader failed: " + err.Error()}
+	}
+	var out bytes.Buffer
+	var rerr error
+	modeName := ""
+	switch mode {
+	case 0:
+		modeName = "io.Copy"
+		_, rerr = io.Copy(onlyWriter{&out}, r)
+	case 1:
+		modeName = "io.Copy to bytes.Buffer"
+		_, rerr = io.Copy(&out, r)
+	case 2:
+		modeName = "io.ReadAll"
+		var b []byte
+		b, rerr = io.ReadAll(r)
+		out.Write(b)
+	default:
+		modeName = "bufio(1MiB)+io.Copy"
+		_, rerr = io.Copy(onlyWriter{&out}, bufio.NewReaderSize(r, 1<<20))
+	}
+	cls := "eof"
+	if rerr != nil {
+		cls = rErrClass(rerr)
+	}
+	oracle := ""
+	o := out.Bytes()
+	if truth != nil {
+		if !bytes.HasPrefix(truth, o) {
+			oracle = "bytes released through " + modeName + " are not a prefix of the original plaintext"
+		} else if rerr == nil && (!bytes.Equal(ct, origCT) || fail) {
+			oracle = "clean end of stream through " + modeName + " on a payload that differs from the one written (or on a failing source)"
+		} else if rerr == nil && !bytes.Equal(o, truth) {
+			oracle = "clean end of stream through " + modeName + " but plaintext incomplete"
+		} else if bytes.Equal(ct, origCT) && !fail && rerr != nil {
+			oracle = fmt.Sprintf("valid payload rejected through %s: %v", modeName, rerr)
+		}
+	}
+	if fail && rerr == nil && oracle == "" {
+		oracle = "clean end of stream although the source failed"
+	}
+	impl := fmt.Sprintf("%s out=%s", cls, h.Sum(o))
+	line := fmt.Sprintf("sdec %s %d %s", h.Hex(key), C, h.Hex(ct))
+	if fail {
+		line = "" // the whole-payload Spec has no failing source: oracle only
+	}
+	return &h.Case{Kind: kind, Line: line, Impl: impl, Oracle: oracle, NonTrivial: true, Canon: canonReject,
+		Note: fmt.Sprintf("%s; drained with %s; ct=%d bytes, fail=%v, pieces=%v, eofWith=%v", note, modeName, len(ct), fail, pieces, eofWith)}
+}
+
+// swCopyCase feeds the real writer the way io.Copy does (ReadFrom when the writer has one).
+func swCopyCase(kind string, key, pt []byte, mode int, note string) *h.Case {
+	var dst bytes.Buffer
+	w, err := verifhook.NewStreamWriter(key, &dst)
+	if err != nil {
+		return &h.Case{Kind: kind, Impl: "newwriter-error", Oracle: "NewWriter failed: " + err.Error()}
+	}
+	var n int64
+	modeName := "io.Copy from bytes.Reader"
+	if mode == 0 {
+		n, err = io.Copy(w, bytes.NewReader(pt))
+	} else {
+		modeName = "io.Copy from a plain reader"
+		n, err = io.Copy(w, onlyReader{bytes.NewReader(pt)})
+	}
+	oracle := ""
+	if err != nil || n != int64(len(pt)) {
+		oracle = fmt.Sprintf("%s reported (%d, %v) for %d bytes on a destination that never fails", modeName, n, err, len(pt))
+	}
+	if cerr := w.Close(); cerr != nil && oracle == "" {
+		oracle = "Close failed on a destination that never fails: " + cerr.Error()
+	}
+	return &h.Case{Kind: kind, Line: fmt.Sprintf("senc %s %d %s", h.Hex(key), C, h.Hex(pt)), Impl: h.Sum(dst.Bytes()), Oracle: oracle,
+		NonTrivial: true, Note: fmt.Sprintf("%s; %s; pt=%d", note, modeName, len(pt))}
 }
